@@ -1,0 +1,8 @@
+//! C19 (JSON save / load): read-only view of whether a presolve reduction or a chordal
+//! decomposition is active in a solver's problem data.
+use crate::solver::implementations::default::DefaultProblemData;
+
+/// (presolve reduction active, chordal decomposition active)
+pub fn reduction_active(data: &DefaultProblemData<f64>) -> (bool, bool) {
+    (data.is_presolved(), data.is_chordal_decomposed())
+}
